@@ -173,4 +173,21 @@ def parseResponse (whole : Bytes) (toHead : Bool) : Option Parsed :=
     let f := framingOf hs version toHead
     some { start := [code, reason, version], headers := sortHeaders hs, framing := f, body := bodyOf f (whole.drop (p + 4)) }
 
+/-! ## the incremental terminator search of `Message::append_bytes` -/
+
+def TERM : Bytes := [CR, LF, CR, LF]
+
+/-- the terminator search of `Message::append_bytes` (net/http/message.cpp 101-110): the new fragment is searched together with
+    the last 3 bytes received before it; result = offset just behind the terminator in `buf ++ frag` -/
+def appendFind (buf frag : Bytes) : Option Nat :=
+  (findSub TERM (buf.drop (buf.length - 3) ++ frag)).map (· + (buf.length - 3) + 4)
+
+/-- `receive_header`: fragments are appended one by one until the terminator has been seen -/
+def scanFrags (buf : Bytes) : List Bytes → Option Nat
+  | [] => none
+  | f :: fs => match appendFind buf f with
+    | some p => some p
+    | none => scanFrags (buf ++ f) fs
+
+
 end Photon.Http
